@@ -72,5 +72,109 @@ def checkTable (cf : CF) (s : Snap) (t : Table) : Bool :=
       | some ks => nodeCost cf e.1.v ks == p.2
       | none => false)
 
+/-! ### `Extractor::new`: the cost-ordered work list (the heap loop of `src/extract/mod.rs`)
+
+The binary heap is a list from which the cheapest entry is taken (`minEntry`; which of several cheapest
+entries comes first does not influence the *cost* table — `dijkstra_accepted` holds for every tie-break).
+An entry is (class, cost): the e-node the implementation stores next to the cost is dropped, it is only
+needed by `extract`.  `usages(i)` is modelled as "every stored e-node that mentions `i`" (what the
+`usages` index must contain on a consistent state). -/
+
+abbrev QEntry := Nat × Nat
+
+/-- the cheapest entry of a non-empty queue `e :: q` (first one among equals) -/
+def minEntry : QEntry → List QEntry → QEntry
+  | e, [] => e
+  | e, f :: q => if f.2 < e.2 then minEntry f q else minEntry e q
+
+/-- entries to push: for every live class without an entry, every e-node selected by `p` whose children all have entries,
+with its cost over the children's entries -/
+def cands (cf : CF) (s : Snap) (t : Table) (p : Node → Bool) : List QEntry :=
+  s.classes.flatMap fun cl =>
+    if !s.isAlive cl.id || (t.get cl.id).isSome then [] else
+    cl.nodes.filterMap fun e =>
+      if p e.1 then (kidCosts t e.1).map fun ks => (cl.id, nodeCost cf e.1.v ks) else none
+
+/-- number of classes without an entry (termination measure of the loop) -/
+def unmapped (s : Snap) (t : Table) : Nat := (s.classes.filter fun cl => (t.get cl.id).isNone).length
+
+theorem minEntry_mem : ∀ (e : QEntry) (q : List QEntry), minEntry e q ∈ e :: q
+  | e, [] => by simp [minEntry]
+  | e, f :: q => by
+    unfold minEntry
+    split
+    · have := minEntry_mem f q; simp only [List.mem_cons] at this ⊢; rcases this with h | h <;> simp [h]
+    · have := minEntry_mem e q; simp only [List.mem_cons] at this ⊢; rcases this with h | h <;> simp [h]
+
+theorem filter_length_lt {α : Type} (p p' : α → Bool) : ∀ (l : List α), (∀ x ∈ l, p' x = true → p x = true) →
+    (∃ x ∈ l, p x = true ∧ p' x = false) → (l.filter p').length < (l.filter p).length
+  | [], _, h => by obtain ⟨x, hx, _⟩ := h; simp at hx
+  | a :: l, hsub, hex => by
+    have hle : ∀ (l : List α), (∀ x ∈ l, p' x = true → p x = true) → (l.filter p').length ≤ (l.filter p).length := by
+      intro l; induction l with
+      | nil => intro _; simp
+      | cons b l ih =>
+        intro h
+        have ih' := ih (fun x hx => h x (List.mem_cons_of_mem _ hx))
+        have hb := h b (by simp)
+        simp only [List.filter_cons]
+        cases hp' : p' b <;> cases hp : p b <;> simp_all <;> omega
+    obtain ⟨x, hx, hpx, hp'x⟩ := hex
+    simp only [List.filter_cons]
+    rcases List.mem_cons.mp hx with rfl | hxl
+    · have := hle l (fun y hy => hsub y (List.mem_cons_of_mem _ hy))
+      simp [hpx, hp'x]; omega
+    · have ih := filter_length_lt p p' l (fun y hy => hsub y (List.mem_cons_of_mem _ hy)) ⟨x, hxl, hpx, hp'x⟩
+      have ha := hsub a (by simp)
+      cases hp' : p' a <;> cases hp : p a <;> simp_all <;> omega
+
+theorem Table.get_cons (a : Nat × Nat) (t : Table) (i : Nat) :
+    Table.get (a :: t) i = if a.1 == i then some a.2 else Table.get t i := by
+  unfold Table.get
+  simp only [List.find?_cons]
+  split <;> simp_all
+
+theorem unmapped_cons_lt (s : Snap) (t : Table) (c k : Nat) (cl : SClass) (hcl : s.cls c = some cl)
+    (hnone : (t.get c).isSome = false) : unmapped s ((c, k) :: t) < unmapped s t := by
+  unfold unmapped
+  apply filter_length_lt
+  · intro x _ h
+    rw [Table.get_cons] at h
+    split at h <;> simp_all
+  · have hmem : cl ∈ s.classes := List.mem_of_find?_eq_some hcl
+    have hid : cl.id = c := by have := List.find?_some hcl; simpa using this
+    refine ⟨cl, hmem, ?_, ?_⟩
+    · rw [hid]; cases h : t.get c <;> simp_all
+    · rw [Table.get_cons, hid]; simp
+
+/-- **the loop** of `Extractor::new`: take the cheapest entry; skip it if its class has an entry already; otherwise
+record it and push every parent node all of whose children now have entries (unless the parent's class has one) -/
+def loop (cf : CF) (s : Snap) (t : Table) (q : List QEntry) : Table :=
+  match q with
+  | [] => t
+  | e :: q' =>
+    let m := minEntry e q'
+    let rest := (e :: q').erase m
+    if hs : (t.get m.1).isSome then loop cf s t rest
+    else match hc : s.cls m.1 with
+      | none => loop cf s t rest
+      | some _ =>
+        let t' : Table := (m.1, m.2) :: t
+        loop cf s t' (rest ++ cands cf s t' (fun n => (Node.appOcc n).any (·.id == m.1)))
+termination_by (unmapped s t, q.length)
+decreasing_by
+  · apply Prod.Lex.right
+    have := minEntry_mem e q'
+    rw [List.length_erase_of_mem this]; simp
+  · apply Prod.Lex.right
+    have := minEntry_mem e q'
+    rw [List.length_erase_of_mem this]; simp
+  · apply Prod.Lex.left
+    exact unmapped_cons_lt s t _ _ _ hc (by simpa using hs)
+
+/-- `Extractor::new`: leaves first, then the loop -/
+def dijkstra (cf : CF) (s : Snap) : Table :=
+  loop cf s [] (cands cf s [] (fun n => (Node.appOcc n).isEmpty))
+
 end Extract
 end SV
